@@ -1,10 +1,13 @@
 (* Proof obligations over facts regenerated from /repo on every check (Generated/SourceFacts.v,
-   written by harness/cmd/facts).  Topic: headers.  When an edit of the sources changes a fact, the
-   lemma below stops compiling; the checks of the properties that depend on this topic then report
+   written by harness/cmd/facts).  Topic: headers.  The facts are semantic summaries (orders, literal
+   sets, capacity classes, parent classes of contexts, lock events per path), so a behaviour-
+   preserving rewrite regenerates the same facts; when an edit changes what the theorems rest on,
+   the lemma below stops compiling, the checks of the properties that depend on this topic report
    the broken obligation by name and search for a failing input. *)
 From Coq Require Import List String ZArith Bool.
 Import ListNotations.
 Require Import Verif.Common.LockEv Verif.Generated.SourceFacts.
+
 Open Scope string_scope.
 
 Lemma header_constants_ok :
